@@ -59,6 +59,14 @@ MODELS = {
                           ("MC_Own_norollcheck.cfg", "O_Ownership")],
                 proofs=["OwnProof.tla"],
                 witnesses=[], variants=[], no_exempt=[], sim_cfg=None),
+    # the rotation of one load balancer under concurrent probe loops, the rebuild opened up into its reads (C09);
+    # controls = the design twin of seeded change C09-2 (reads before lb.lock)
+    "duelprobe": dict(module="MC_Rot.tla", quick=["MC_Rot_quick.cfg", "MC_Rot_always.cfg"],
+                      thorough=["MC_Rot_quick.cfg", "MC_Rot_always.cfg", "MC_Rot_thorough.cfg"],
+                      controls=[("MC_Rot_unlocked_settled.cfg", "R_Settled"), ("MC_Rot_unlocked_claim.cfg", "R_Claim"),
+                                ("MC_Rot_unlocked_none.cfg", "R_NoneJustified")],
+                      live=dict(quick=["MC_Rot_live.cfg"], thorough=["MC_Rot_live.cfg"]),
+                      witnesses=[], variants=[], no_exempt=[], sim_cfg=None),
 }
 
 CONC = {
@@ -69,7 +77,8 @@ CONC = {
     "C06": dict(families=["own"], invs=["C06_b", "C06_c"], dinvs=["O_FailedLeavesNothing", "A_FailChangesNothing", "O_NoLeak"]),
     "C07": dict(families=["pause", "duelstop"], invs=["C07_a", "C07_b", "C07_c", "C07_d", "C07_e", "C07_f"], dinvs=["D_C07_a", "D_C07_b", "D_C07_f"]),
     "C08": dict(families=["pause"], invs=["C08", "C08_fwd"], dinvs=["D_C08", "D_C07_a"]),
-    "C09": dict(families=["health", "rollout", "duelprobe"], invs=["C09_a", "C09_b", "C09_c", "C09_d"], dinvs=["D_C09"]),
+    "C09": dict(families=["health", "rollout", "duelprobe"], invs=["C09_a", "C09_b", "C09_c", "C09_d"],
+                dinvs=["D_C09", "R_Settled", "R_Claim", "R_NoneJustified", "R_ReadsFresh", "L_Settles"]),
     "C12": dict(families=["snap"], invs=["C12_a", "C12_b"], dinvs=["S_Complete", "S_Window", "S_Current", "S_Mutex"]),
     "C17": dict(families=["deploy", "pause", "rollout"], invs=["C17_a", "C17_b", "C17_c"], dinvs=["D_C17_c"]),
 }
